@@ -20,10 +20,12 @@
    thread, variant); a pair = (index of the event in the slice, event,
    subscriber channel). Channels, select/timers, RWMutex and WaitGroup are the
    trusted abstract machines described at the top of PubSubModel.v. *)
-From Typ Require Import Lib.Base Chans.PubSubModel Chans.PubSubProofs Chans.PubSubTrace.
+From Typ Require Import Lib.Base Chans.PubSubModel Chans.PubSubProofs Chans.PubSubTrace Chans.PubSubCalls.
 
 (* ---------------------------------------------------------------- *)
-(* Unsub, UnsubAll, WithOnly: what one call does                      *)
+(* Unsub, UnsubAll, WithOnly: what one call does when run alone       *)
+(* (uninterrupted, lock free at the start); the statements for EVERY  *)
+(* schedule follow in the next section                               *)
 (* ---------------------------------------------------------------- *)
 
 (* In every reachable configuration the subscription lists are duplicate
@@ -59,7 +61,8 @@ Theorem C10_unsub_unknown : forall c t th o ob sub rest ch1 ch2,
   run c [(t, ch1); (t, ch2)] =
   Config (upd o (set_wr ob None) (c_objs c)) (c_chans c) (c_wg c)
          (upd t (Thread rest PIdle (th_rets th ++ [RErr ErrAlreadyUnsubscribed])) (c_threads c))
-         (c_trace c) None.
+         (EUnlock t (length (th_rets th)) o (RErr ErrAlreadyUnsubscribed) (o_subs ob) ::
+          ELock t (length (th_rets th)) o (CUnsub o (Some sub)) (o_subs ob) :: c_trace c) None.
 Proof. exact unsub_unknown_solo. Qed.
 Print Assumptions C10_unsub_unknown.
 
@@ -76,7 +79,8 @@ Theorem C10_unsub_known : forall c t th o ob sub rest chn ch1 ch2 ch3,
   Config (upd o (set_wr (set_subs ob (remove Nat.eq_dec sub (o_subs ob))) None) (c_objs c))
          (upd sub (Chan (ch_buf chn) (ch_cap chn) true) (c_chans c)) (c_wg c)
          (upd t (Thread rest PIdle (th_rets th ++ [RNil])) (c_threads c))
-         (EClose t o sub :: c_trace c) None.
+         (EUnlock t (length (th_rets th)) o RNil (remove Nat.eq_dec sub (o_subs ob)) :: EClose t o sub ::
+          ELock t (length (th_rets th)) o (CUnsub o (Some sub)) (o_subs ob) :: c_trace c) None.
 Proof. exact unsub_known_solo. Qed.
 Print Assumptions C10_unsub_known.
 
@@ -91,7 +95,8 @@ Theorem C10_unsuball : forall c t th o ob rest,
   Config (upd o (set_wr (set_subs ob []) None) (c_objs c))
          (close_all (o_subs ob) (c_chans c)) (c_wg c)
          (upd t (Thread rest PIdle (th_rets th ++ [RNil])) (c_threads c))
-         (rev (map (EClose t o) (o_subs ob)) ++ c_trace c) None.
+         (EUnlock t (length (th_rets th)) o RNil [] :: rev (map (EClose t o) (o_subs ob)) ++
+          ELock t (length (th_rets th)) o (CUnsubAll o) (o_subs ob) :: c_trace c) None.
 Proof. exact unsuball_solo. Qed.
 Print Assumptions C10_unsuball.
 
@@ -118,9 +123,104 @@ Theorem C10_withonly : forall c t th o ob sub rest ch1 ch2,
                     end) [] None None (o_timeout ob) (o_cb ob) 0%Z])
          (c_chans c) (c_wg c)
          (upd t (Thread rest PIdle (th_rets th ++ [RView (length (c_objs c))])) (c_threads c))
-         (c_trace c) None.
+         (EViewRet t (length (th_rets th)) o (length (c_objs c))
+                   (match sub with
+                    | Some s => if in_dec Nat.eq_dec s (o_subs ob) then [s] else []
+                    | None => []
+                    end) (o_subs ob) :: EViewLock t (length (th_rets th)) o sub (o_subs ob) :: c_trace c) None.
 Proof. exact withonly_solo. Qed.
 Print Assumptions C10_withonly.
+
+(* ---------------------------------------------------------------- *)
+(* Sub, Unsub, UnsubAll, WithOnly in EVERY schedule                   *)
+(* ---------------------------------------------------------------- *)
+
+(* Ghost log entries used here: [ELock t n o cl subs] is logged by the step in
+   which thread t, making its n-th call cl, acquires the write lock of PubSub o
+   (directly or after having waited, PLockWait), subs = o.subs at that moment;
+   [EUnlock t n o r subs1] by the step that releases it and returns r, subs1 =
+   o.subs at that moment; [EClose t o ci] by every close. [osect o log] reads
+   off the log the write section open on o: holder, call index, call, o.subs at
+   the lock, channels closed on o since (newest first); it is reset by every
+   ELock/EUnlock on o, so "osect o earlier = Some (t, n, cl, subs0, cls)" says
+   that between this ELock and the end of [earlier] no other thread locked or
+   unlocked o and exactly the channels [rev cls] were closed on o (by anybody).
+
+   For every run and every unlock in its log: the section was opened by the same
+   thread for the same call; for Unsub(ci) the result is nil iff ci was
+   subscribed to o when the lock was taken, then exactly ci was closed on o and
+   o.subs lost exactly ci, otherwise ErrAlreadyUnsubscribed, nothing closed and
+   o.subs unchanged; UnsubAll closes exactly o.subs (in order) and empties it;
+   Sub/SubBuf append the new channel and close nothing. No interleaving of other
+   threads changes this (they cannot touch o.subs while the lock is held). *)
+Theorem C10_write_calls_every_schedule : forall timeout cb defbuf progs s later t n o r subs1 earlier,
+  c_trace (run (init timeout cb defbuf progs) s) = later ++ EUnlock t n o r subs1 :: earlier ->
+  exists cl subs0 cls, osect o earlier = Some (t, n, cl, subs0, cls) /\
+                       unlock_spec o cl subs0 (rev cls) r subs1.
+Proof. exact unlock_ok_run. Qed.
+Print Assumptions C10_write_calls_every_schedule.
+
+(* WithOnly in every run: [EViewLock t n o sub subs0] is logged when the call
+   takes the read lock, [EViewRet t n o v vsubs subs1] when it releases it and
+   returns view v. The view lists exactly [sub] if it was subscribed to o when the
+   read lock was taken (nothing for nil or an unknown channel), and o.subs was
+   the same at the unlock (nobody can change it under the read lock). *)
+Theorem C10_withonly_every_schedule : forall timeout cb defbuf progs s later t n o v vsubs subs1 earlier,
+  c_trace (run (init timeout cb defbuf progs) s) = later ++ EViewRet t n o v vsubs subs1 :: earlier ->
+  exists sub subs0, vsect t earlier = Some (n, o, sub, subs0) /\ NoDup subs0 /\ subs1 = subs0 /\
+    vsubs = match sub with
+            | Some s => if in_dec Nat.eq_dec s subs0 then [s] else []
+            | None => []
+            end.
+Proof. exact view_ok_run. Qed.
+Print Assumptions C10_withonly_every_schedule.
+
+(* Where a log entry comes from: every entry of the log of a run was logged by
+   one step of the run, taken by thread t in a configuration with the properties
+   [logged_by]: e.g. for [ERLock k o evs subs]: t = k_tid k had returned from
+   exactly k_n k calls, its next call was the publish call with these events
+   and this variant on o, and subs = o.subs in that configuration; for
+   [ELock t n o cl subs]: cl was t's next call (or the one it was parked in
+   Lock for), n calls returned, subs = o.subs, lock free; for [EUnlock t n o r
+   subs1]: in the next configuration t has n+1 results, the last one r, and
+   o.subs = subs1, write lock released; similarly EViewLock, EViewRet, EPubRet,
+   EClose (the closed channel was open; t holds the write lock of o). *)
+Theorem C10_log_origin : forall timeout cb defbuf progs s e,
+  In e (c_trace (run (init timeout cb defbuf progs) s)) ->
+  exists s1 t ch s2 th,
+    s = s1 ++ (t, ch) :: s2 /\ c_panic (run (init timeout cb defbuf progs) s1) = None /\
+    nth_error (c_threads (run (init timeout cb defbuf progs) s1)) t = Some th /\
+    step (run (init timeout cb defbuf progs) s1) t ch = Some (run (init timeout cb defbuf progs) (s1 ++ [(t, ch)])) /\
+    logged_by (run (init timeout cb defbuf progs) s1) t th (run (init timeout cb defbuf progs) (s1 ++ [(t, ch)])) e.
+Proof. exact log_origin_init. Qed.
+Print Assumptions C10_log_origin.
+
+(* The log and the calls: if the n-th call of thread t's program has returned
+   (t has more than n results), then: a publish call returned () and its
+   EPubRet (CallId t n variant) and its ERLock with the call's PubSub and events
+   are in the log; Sub/SubBuf/Unsub/UnsubAll have their ELock and their EUnlock
+   with the returned value in the log; WithOnly its EViewLock and EViewRet with
+   the returned view; Unsub(nil) returned ErrSubscriptionNotInitalized. *)
+Theorem C10_returned_logged : forall timeout cb defbuf progs s t th p n cl r,
+  let c := run (init timeout cb defbuf progs) s in
+  nth_error (c_threads c) t = Some th -> nth_error progs t = Some p ->
+  nth_error p n = Some cl -> nth_error (th_rets th) n = Some r ->
+  call_logged t n cl r (c_trace c).
+Proof. exact returned_logged. Qed.
+Print Assumptions C10_returned_logged.
+
+(* Conversely the ERLock / ELock / EViewLock entries of the log name calls of
+   the programs, at the positions they name. *)
+Theorem C10_logged_calls : forall timeout cb defbuf progs s,
+  let c := run (init timeout cb defbuf progs) s in
+  (forall k o evs subs p, In (ERLock k o evs subs) (c_trace c) -> nth_error progs (k_tid k) = Some p ->
+     exists cl, nth_error p (k_n k) = Some cl /\ is_pub_call cl (k_var k) o evs) /\
+  (forall t n o cl subs p, In (ELock t n o cl subs) (c_trace c) -> nth_error progs t = Some p ->
+     nth_error p n = Some cl) /\
+  (forall t n o sub subs p, In (EViewLock t n o sub subs) (c_trace c) -> nth_error progs t = Some p ->
+     nth_error p n = Some (CWithOnly o sub)).
+Proof. exact logged_calls. Qed.
+Print Assumptions C10_logged_calls.
 
 (* Nothing is handed to a channel after the step that closed (removed) it,
    in any run; and it stays closed. *)
@@ -173,12 +273,15 @@ Print Assumptions C10_resolved_was_subscribed.
 (* PubWait, PubSliceWait, PubSync and PubSliceSync return only after every
    pair of the call has finished: in the log BEFORE the return of call k, every
    pair the call set out to deliver has had its send() return (counts per pair;
-   both are at most 1 by C10_conservation). *)
+   both are at most 1 by C10_conservation); and the call's ERLock (which lists
+   those pairs: its events x the subscribers at that moment, C10_log_origin) is
+   in the log before the return, for every variant, so the counts are not
+   vacuously 0. *)
 Theorem C10_wait_returns_after : forall timeout cb defbuf progs s later k earlier,
   c_trace (run (init timeout cb defbuf progs) s) = later ++ EPubRet k :: earlier ->
-  snd (k_var k) <> Async ->
-  forall p, total (ev_exp k p) earlier = total (ev_done k p) earlier.
-Proof. exact wait_returns_after. Qed.
+  (exists o evs subs, In (ERLock k o evs subs) earlier) /\
+  (snd (k_var k) <> Async -> forall p, total (ev_exp k p) earlier = total (ev_done k p) earlier).
+Proof. exact wait_returns_after_rlock. Qed.
 Print Assumptions C10_wait_returns_after.
 
 (* Exactly one of a delivery or a timeout, and exactly one OnPubTimeout call
@@ -240,7 +343,14 @@ Print Assumptions C10_closed_only_by_unsub.
    UnsubAll) happens while no asynchronous sender goroutine for the channel
    being closed is alive and no other PubSub (WithOnly view) lists it
    ([safe_sched], a condition on the schedule), buffer sizes being >= 0.
-   Moreover in such runs every channel listed by an unlocked PubSub is open. *)
+   Moreover in such runs every channel listed by an unlocked PubSub is open.
+   The two hypotheses exclude exactly the three known findings: (a) no live
+   asynchronous sender at a close (pubsub-async-unsub-panic); (b) no other PubSub
+   listing the closed channel, i.e. no stale view left behind, through which a
+   later publish (pubsub-stale-withonly-view-panic) or a later Unsub/UnsubAll
+   (pubsub-stale-withonly-view-unsub-panic) would act on the closed channel; see
+   C10_stale_view_histories_not_safe. Unsubscribing through a view is otherwise
+   in scope: any program may call Unsub/UnsubAll on any PubSub object. *)
 Theorem C10_no_panic_quiesced : forall timeout cb defbuf progs s,
   (0 <= defbuf)%Z -> (forall p cl, In p progs -> In cl p -> call_ok cl) ->
   safe_sched (init timeout cb defbuf progs) s ->
@@ -261,7 +371,7 @@ Print Assumptions C10_no_panic_sync.
    goroutine sends on the closed channel after both calls returned normally. *)
 Theorem C10_async_unsub_panic_reachable :
   exists progs s, Panicked (run (init 0%Z false 0%Z progs) s) /\
-    c_panic (run (init 0%Z false 0%Z progs) s) = Some SendOnClosed /\
+    c_panic (run (init 0%Z false 0%Z progs) s) = Some PSendOnClosed /\
     (exists th, nth_error (c_threads (run (init 0%Z false 0%Z progs) s)) 0 = Some th /\
                 th_rets th = [RChan 0; RUnit; RNil]).
 Proof. exact async_unsub_panic_reachable. Qed.
@@ -273,9 +383,69 @@ Print Assumptions C10_async_unsub_panic_reachable.
    subscription list. This is hypothesis (b) of C10_no_panic_quiesced. *)
 Theorem C10_stale_view_panic_reachable :
   c_panic (run (init 0%Z false 0%Z [[CSubBuf 0 1%Z; CWithOnly 0 (Some 0); CUnsub 0 (Some 0); CPubOne Sync 1 1%Z]])
-               (repeat (0, Plain) 9)) = Some SendOnClosed.
+               (repeat (0, Plain) 9)) = Some PSendOnClosed.
 Proof. exact stale_view_panic_reachable. Qed.
 Print Assumptions C10_stale_view_panic_reachable.
+
+(* The third known finding (id pubsub-stale-withonly-view-unsub-panic), in theorem
+   form: s := SubBuf(1); v := WithOnly(s); Unsub(s) on the parent; Unsub(s)
+   through v panics with "close of closed channel": the view still lists s. *)
+Theorem C10_stale_view_unsub_panic_reachable :
+  c_panic (run (init 0%Z false 0%Z [[CSubBuf 0 1%Z; CWithOnly 0 (Some 0); CUnsub 0 (Some 0); CUnsub 1 (Some 0)]])
+               (repeat (0, Plain) 9)) = Some PCloseOfClosed.
+Proof. exact stale_view_unsub_panic_reachable. Qed.
+Print Assumptions C10_stale_view_unsub_panic_reachable.
+
+(* Both stale-view histories (publish through the view, Unsub through the
+   view) are excluded EXPLICITLY by hypothesis (b) of C10_no_panic_quiesced: their
+   schedules are not [safe_sched], because when the parent's Unsub closes the
+   channel another PubSub (the view) lists it. (C10_no_panic_sync excludes them
+   by having no WithOnly.) *)
+Theorem C10_stale_view_histories_not_safe :
+  ~ safe_sched (init 0%Z false 0%Z [[CSubBuf 0 1%Z; CWithOnly 0 (Some 0); CUnsub 0 (Some 0); CPubOne Sync 1 1%Z]])
+               (repeat (0, Plain) 9) /\
+  ~ safe_sched (init 0%Z false 0%Z [[CSubBuf 0 1%Z; CWithOnly 0 (Some 0); CUnsub 0 (Some 0); CUnsub 1 (Some 0)]])
+               (repeat (0, Plain) 9).
+Proof. exact (conj stale_view_not_safe stale_view_unsub_not_safe). Qed.
+Print Assumptions C10_stale_view_histories_not_safe.
+
+(* [safe_sched] can be decided for a concrete schedule. *)
+Theorem C10_safe_sched_decidable : forall c s, safe_schedb c s = true -> safe_sched c s.
+Proof. exact safe_schedb_sound. Qed.
+Print Assumptions C10_safe_sched_decidable.
+
+(* Non-vacuity of C10_no_panic_quiesced for asynchronous variants, and of the
+   every-schedule theorems: two subscribers (buffers 0 and 1), a range receiver
+   on channel 0; PubWait 5; Pub 6 (whose sender to the full channel 1 stays
+   blocked and alive); Unsub(0) while that sender is alive but no sender for
+   channel 0 is; Unsub(0) again; WithOnly(1). The schedule satisfies [safe_sched],
+   the run does not panic, and the log has the entries the theorems speak of. *)
+Example C10_example_async :
+  let progs := [[CSubBuf 0 0%Z; CSubBuf 0 1%Z; CPubOne Wait 0 5%Z; CPubOne Async 0 6%Z;
+                 CUnsub 0 (Some 0); CUnsub 0 (Some 0); CWithOnly 0 (Some 1)]; [CRange 0]] in
+  let s := [(0, Plain); (0, Plain); (0, Plain); (0, Plain);                 (* two SubBuf *)
+            (0, Plain); (0, Plain); (0, Plain); (0, Plain); (0, Plain);      (* PubWait: RLock; wg.Add; go; go; RUnlock *)
+            (2, With 1); (3, Plain); (2, Plain); (3, Plain);                 (* senders: rendezvous / buffer; wg.Done twice *)
+            (0, Plain);                                                      (* wg.Wait returns *)
+            (0, Plain); (0, Plain); (0, Plain); (0, Plain);                 (* Pub: RLock; go; go; RUnlock *)
+            (4, With 1); (5, Timer); (5, Plain);                             (* 6 -> receiver of 0; sender to 1: buffer full: blocked *)
+            (0, Plain); (0, Plain); (0, Plain);                              (* Unsub 0 *)
+            (1, Plain);                                                      (* the receiver sees the close *)
+            (0, Plain); (0, Plain); (0, Plain); (0, Plain)] in               (* Unsub 0 again; WithOnly 1 *)
+  let c0 := init 0%Z true 0%Z progs in
+  let c := run c0 s in
+  safe_schedb c0 s = true /\ c_panic c = None /\
+  map (@th_rets) (c_threads c) =
+    [[RChan 0; RChan 1; RUnit; RUnit; RNil; RErr ErrAlreadyUnsubscribed; RView 1]; [RRange [5; 6]%Z]; []; []; []; []] /\
+  (exists th, nth_error (c_threads c) 5 = Some th /\
+              th_pc th = PGoSend (CallId 0 3 (false, Async)) (0, 6%Z, 1) 0%Z true false) /\
+  firstn 7 (c_trace c) =
+    [EViewRet 0 6 0 1 [1] [1]; EViewLock 0 6 0 (Some 1) [1];
+     EUnlock 0 5 0 (RErr ErrAlreadyUnsubscribed) [1]; ELock 0 5 0 (CUnsub 0 (Some 0)) [1];
+     EUnlock 0 4 0 RNil [1]; EClose 0 0 0; ELock 0 4 0 (CUnsub 0 (Some 0)) [0; 1]] /\
+  osect 0 (skipn 5 (c_trace c)) = Some (0, 4, CUnsub 0 (Some 0), [0; 1], [0]) /\
+  vsect 0 (skipn 1 (c_trace c)) = Some (6, 0, Some 1, [1]).
+Proof. vm_compute. repeat split. eexists. split; reflexivity. Qed.
 
 (* Non-vacuity: two subscribers (buffers 2 and 0) and a range receiver on the
    unbuffered one; PubSliceSync of two events; Unsub of a subscribed channel, of
